@@ -4,11 +4,8 @@ CONSTANTS
   MaxFaults = 2
   MaxForgets = 1
   FixedReader = TRUE
-  LinkBeforeClose = FALSE
+  LinkBeforeClose = TRUE
 INIT Init
 NEXT Next
-INVARIANT Recovers
 INVARIANT NeverRaises
-INVARIANT PointerImpliesObject
-INVARIANT NoPoisonedMemento
 CHECK_DEADLOCK FALSE
